@@ -41,6 +41,14 @@ func (in *Interp) randIntn(label string, n *Term) *Term {
 	t := in.newNondet(label, label, SInt)
 	in.addPC(in.tb.Le(in.tb.Int(0), t))
 	in.addPC(in.tb.Lt(t, n))
+	if in.randSameOn {
+		// stated bound of the harness (vRandSameInts): every integer draw of this section returns the same value
+		if in.randSameFirst == nil {
+			in.randSameFirst = t
+		} else {
+			in.addPC(in.tb.Eq(t, in.randSameFirst))
+		}
+	}
 	return t
 }
 
@@ -609,6 +617,12 @@ func harnessIntrinsic(fn *ssa.Function) intrinsicFn {
 		return func(in *Interp, fn *ssa.Function, a []Value) Value {
 			t, ok := a[0].(*Term)
 			return in.tb.Bool(ok && t.IsConst())
+		}
+	case "vRandSameInts":
+		return func(in *Interp, fn *ssa.Function, a []Value) Value {
+			on := in.term(a[0], "vRandSameInts")
+			in.randSameOn, in.randSameFirst = on.IsConst() && on.b, nil
+			return nil
 		}
 	case "vRandUnscripted", "vParallelSection":
 		return func(in *Interp, fn *ssa.Function, a []Value) Value { return nil }
